@@ -160,6 +160,12 @@ func TSBytes(sec int64) []byte {
 	return ts[:]
 }
 
+// TSNow is the current time as a TAI64N hello timestamp.
+func TSNow() []byte {
+	ts := tai64.FromGoTime(time.Now()).Marshal()
+	return ts[:]
+}
+
 type constReader byte
 
 func (c constReader) Read(p []byte) (int, error) {
